@@ -6,9 +6,10 @@ LEVEL_NOTE = ("Coq theorem C18_holds: the loader's result is a function of the J
               "a source-less configuration needs nothing else), with serde_json as the parse oracle. Tied to Config::new by loading each generated configuration in compact, pretty, "
               "key-shuffled and whitespace-padded (9 KB, 70 KB, 300 KB; leading, trailing, interior) serialisations and with 300 targets, and requiring identical output from three APIs.")
 TRUSTED = ["Coq 8.16.1 kernel; no axioms", "serde_json as the oracle of which value a byte string denotes", "modelled, not verified: the Rust source"]
-RULE = ("configurations of 3, 6 and 300 targets (thorough: more) x 13 serialisations each; non-trivial = serialisation larger than 8 KiB; distinct by (config, serialisation)")
+RULE = ("configurations of 3, 6 and 300 targets (thorough: more) x 13+ serialisations each, read from the configuration file by config show / analyze / target show, and piped into `config generate` (also delivered in two writes 0.4 s apart); non-trivial = serialisation larger than 8 KiB or split delivery; distinct by (config, serialisation)")
 def run(ctx, scale): cfgscen.run_c18(ctx, scale)
 def replay(ctx, case):
     c = case.get("case", case)
-    cfgscen.c18_case(ctx, ctx.rng, c.get("targets", 3))
+    if c.get("generate"): cfgscen.c18_generate_case(ctx, ctx.rng, c.get("targets", 2))
+    else: cfgscen.c18_case(ctx, ctx.rng, c.get("targets", 3))
     return {"spec_failures": [d for _, d in ctx.spec_failures][:3], "disagreements": [d for _, d in ctx.tie_breaks][:3]}
